@@ -85,6 +85,14 @@ func (g *fnGen) constructorOf(fd *ast.FuncDecl) *ctorInfo {
 		return nil
 	}
 	litOf := func(e ast.Expr) *ast.CompositeLit {
+		if call, ok := e.(*ast.CallExpr); ok && isBuiltin(call, "new", 1) {
+			// new(T) is &T{}: every field zero
+			b, _ := baseAndArgs(call.Args[0])
+			if id, ok := b.(*ast.Ident); !ok || id.Name != tid.Name {
+				return nil
+			}
+			return &ast.CompositeLit{Type: call.Args[0], Lbrace: call.Lparen, Rbrace: call.Rparen}
+		}
 		u, ok := e.(*ast.UnaryExpr)
 		if !ok || u.Op != token.AND {
 			return nil
@@ -180,6 +188,7 @@ func (g *fnGen) constructorOf(fd *ast.FuncDecl) *ctorInfo {
 func (c *fnCtx) ctorInit(ci *ctorInfo, fieldNames []string, fieldTypes map[string]ast.Expr, fieldFuncNoRes map[string]bool) []fnBind {
 	var pre []fnBind
 	vals := map[string]string{}
+	spares := map[string]string{}
 	for _, el := range ci.lit.Elts {
 		kv, ok := el.(*ast.KeyValueExpr)
 		if !ok {
@@ -208,6 +217,11 @@ func (c *fnCtx) ctorInit(ci *ctorInfo, fieldNames []string, fieldTypes map[strin
 		fv := c.fields[id.Name]
 		if fv == nil {
 			c.lostAt(kv, "constructor literal field %s", id.Name)
+		}
+		if call, ok := kv.Value.(*ast.CallExpr); ok && fv.typ.k == "slice" && isBuiltin(call, "make", len(call.Args)) {
+			// a slice the constructor makes itself: nobody else holds its array
+			vals[id.Name] = c.ctorMake(call, id.Name, &pre, spares)
+			continue
 		}
 		if fv.typ.k == "slice" {
 			x := c.plainVar(kv.Value)
@@ -248,10 +262,43 @@ func (c *fnCtx) ctorInit(ci *ctorInfo, fieldNames []string, fieldTypes map[strin
 		}
 		pre = append(pre, fnBind{pat: pat, e: v, isLet: true})
 		if sp := c.fat[fv]; sp != nil {
-			pre = append(pre, fnBind{pat: sp.name + " : " + varType(sp), e: "[]", isLet: true})
+			spv := "[]"
+			if s, ok := spares[f]; ok {
+				spv = s
+			}
+			pre = append(pre, fnBind{pat: sp.name + " : " + varType(sp), e: spv, isLet: true})
 		}
 	}
 	return pre
+}
+
+// ctorMake: make([]T, n[, c]) as the value of a slice field in a constructor literal: the check
+// of make, n zero elements (and, for a field with a tracked capacity, c - n more in its spare part).
+func (c *fnCtx) ctorMake(call *ast.CallExpr, field string, pre *[]fnBind, spares map[string]string) string {
+	if at, ok := call.Args[0].(*ast.ArrayType); (ok && at.Len != nil) || len(call.Args) < 2 || len(call.Args) > 3 {
+		c.lostAt(call, "make")
+	}
+	t := c.goType(call.Args[0])
+	if t.k != "slice" {
+		c.lostAt(call, "make of %s", src(call.Args[0]))
+	}
+	n, _ := c.expr(call.Args[1], pre)
+	cp := n
+	if len(call.Args) == 3 {
+		cp, _ = c.expr(call.Args[2], pre)
+	}
+	bindRaw(pre, "_", "go_make_check "+paren(n)+" "+paren(cp))
+	val := "[]"
+	if n != "0" {
+		if t.elem.k == "slice" {
+			c.lostAt(call, "make of a non-empty slice of slices")
+		}
+		val = "repeat " + c.zeroOf(t.elem, call) + " (Z.to_nat " + paren(n) + ")"
+	}
+	if cp != n {
+		spares[field] = "repeat " + c.zeroOf(t.elem, call) + " (Z.to_nat (" + cp + " - " + n + "))"
+	}
+	return val
 }
 
 // ---------------------------------------------------------------- copy
